@@ -45,7 +45,13 @@ func DiskFromDir(root string) (*Disk, error) {
 }
 
 func overlay(base []byte, w Write, n int) []byte {
-	// first n bytes of write w applied over base
+	// first n bytes of write w applied over base; a truncation cuts
+	if w.Trunc {
+		if int(w.Off) < len(base) {
+			return base[:w.Off:w.Off]
+		}
+		return base
+	}
 	end := int(w.Off) + n
 	if end > len(base) {
 		nb := make([]byte, end)
@@ -110,9 +116,12 @@ var classes = []string{"tx", "commit", "val", "aht", "index"}
 //	os             everything handed to the OS (process kill)
 //	only:<class>   files of the class as the OS saw them, all other files durable only
 //	except:<class> files of the class durable only, all others as the OS saw them
-//	rand:<n>       independent pseudo-random prefix per file (seed n), torn last write one in two
+//	rand:<n>       independent pseudo-random prefix per file (seed n), torn last write one in two,
+//	               a truncation inside the prefix missing one in two
+//	notrunc        everything handed to the OS except the truncations (the inode sizes did not
+//	               reach the disk: stale bytes behind rewound offsets)
 func policies(rng *rand.Rand, nrand int) []string {
-	ps := []string{"dur", "os"}
+	ps := []string{"dur", "os", "notrunc"}
 	for _, c := range classes {
 		ps = append(ps, "only:"+c, "except:"+c)
 	}
@@ -147,7 +156,7 @@ func (d *Disk) Image(policy string) map[string][]byte {
 		cl := classOf(n)
 		switch {
 		case policy == "dur":
-		case policy == "os":
+		case policy == "os", policy == "notrunc":
 			k = len(f.pending)
 		case strings.HasPrefix(policy, "only:"):
 			if cl == policy[5:] {
@@ -168,12 +177,15 @@ func (d *Disk) Image(policy string) map[string][]byte {
 		case prng != nil:
 			if len(f.pending) > 0 {
 				k = prng.Intn(len(f.pending) + 1)
-				if k < len(f.pending) && prng.Intn(2) == 0 {
+				if k < len(f.pending) && !f.pending[k].Trunc && len(f.pending[k].Data) > 0 && prng.Intn(2) == 0 {
 					t = prng.Intn(len(f.pending[k].Data))
 				}
 			}
 		}
 		for i := 0; i < k; i++ {
+			if f.pending[i].Trunc && (policy == "notrunc" || (prng != nil && prng.Intn(2) == 0)) {
+				continue
+			}
 			b = overlay(b, f.pending[i], len(f.pending[i].Data))
 		}
 		if t > 0 {
